@@ -88,10 +88,10 @@ def shards(tier, seed):
     q = tier == "quick"
     out = []
     for i in range(11):
-        out.append({"kind": "perm", "seed": seed, "shard": i, "n": 18 if q else 300})
+        out.append({"kind": "perm", "seed": seed, "shard": i, "n": 48 if q else 700})
     for i in range(4):
-        out.append({"kind": "bulk", "seed": seed, "shard": i, "n": 10 if q else 150})
-    out.append({"kind": "range", "seed": seed, "shard": 0, "n": 60 if q else 900})
+        out.append({"kind": "bulk", "seed": seed, "shard": i, "n": 26 if q else 400})
+    out.append({"kind": "range", "seed": seed, "shard": 0, "n": 150 if q else 2500})
     return out
 
 
@@ -196,12 +196,16 @@ def gen_radii(rng, oracle, metric, k):
         elif c == "none" and pos.size:
             r = float(pos[0]) / 2
         elif c == "all":
-            r = gm.HALF_CIRCUMFERENCE_KM * (1 + 1e-6)
+            r = gm.HALF_CIRCUMFERENCE_KM
         elif c == "round":
             r = rng.choice([1, 5, 10, 50, 100, 500, 1000, 5000, 3.1, 0.5])
         else:
             c = "log"
             r = 10 ** rng.uniform(-3, math.log10(gm.HALF_CIRCUMFERENCE_KM))
+        # the statement's radii end at half the circumference (beyond it the haversine
+        # metric of the tree is no longer monotonic)
+        if r > gm.HALF_CIRCUMFERENCE_KM:
+            r = gm.HALF_CIRCUMFERENCE_KM
         out.append((c, r))
     return out
 
@@ -505,7 +509,7 @@ def classify_distance(case, fam, exp, rows, shuffler, prob):
     if got is None:
         return "distance-column"
     got = got.astype(np.longdouble)
-    nz = want > 0
+    nz = want > 1e-6        # pairs farther apart than 1 mm carry the scale information
     if nz.any():
         ratio = got[nz] / want[nz]
         if np.all(np.abs(ratio * gm.R_KM * 1000 - 1) < 1e-6) and \
